@@ -53,7 +53,9 @@ def gen_constraints(rng, col):
             continue
         if kind == 'type':
             r = rng.random()
-            if r < 0.5:
+            if ftype == 'real' and r < 0.45:
+                v = rng.choice(['int', 'bool', ['int', 'bool'], ['int', 'string']])
+            elif r < 0.5:
                 v = ftype if ftype != 'other' else 'string'
             elif r < 0.8:
                 v = rng.choice(TYPES)
@@ -359,7 +361,12 @@ class C02(core.Prop):
         if any(c['ftype'] == 'other' for c in frame):
             return []
         cfg = {'eps': case['eps'], 'strict': case['strict'], 'rx': cx.rx_table(rexes, strings)}
-        return [{'op': 'cx.verify', 'cfg': cfg, 'frame': frame, 'constraints': cons, 'detect': d} for d in (False, True)]
+        ops = [{'op': 'cx.verify', 'cfg': cfg, 'frame': frame, 'constraints': cons, 'detect': d} for d in (False, True)]
+        # the aggregates the verdicts rest on are tied in this check too (real columns: whole-number count)
+        for mc, col in zip(frame, case['frame']['cols']):
+            if mc['ftype'] == 'real':
+                ops.append({'op': 'cx.calc', 'col': mc})
+        return ops
 
     def _ordered(self, case):
         """fields in the order verify() reports them: missing fields first, then frame order"""
@@ -378,13 +385,29 @@ class C02(core.Prop):
             for name, fr in v.fields.items():
                 fields.append([name, {k: bool(x) for k, x in fr.items()}, fr.passes, fr.failures])
             out.append({'passes': v.passes, 'failures': v.failures, 'fields': fields})
+        from tdda.constraints.pd.constraints import PandasConstraintCalculator
+        for col in case['frame']['cols']:
+            try:
+                mc = cx.model_col(col)
+            except ValueError:
+                continue
+            if mc['ftype'] == 'real':
+                df = cx.to_df({'cols': [col]})
+                try:
+                    out.append(PandasConstraintCalculator(df).calc_non_integer_values_count(col['name']))
+                except Exception as e:
+                    out.append({'exc': type(e).__name__})
         return out
 
     def canon_model(self, case, outs):
         # verdicts keyed by kind (the implementation reports them in its preferred key order)
         res = []
         ordered = self._ordered(case)
-        for d, o in zip((False, True), outs):
+        for o in outs[2:]:
+            res_tail = o['ok']['non_integer_count'] if 'ok' in o else {'exc': o.get('exc')}
+            res.append(res_tail)
+        tail, res = res, []
+        for d, o in zip((False, True), outs[:2]):
             st, v = self._run(case, d)
             if st == 'exc':
                 # an exception of the implementation is the oracle's business ('raises' clause), not a
@@ -399,7 +422,7 @@ class C02(core.Prop):
             for (name, ks), f in zip(ordered, v['fields']):
                 fields.append([f[0], {k['kind']: b for k, b in zip(ks, f[1])}, f[2], f[3]])
             res.append({'passes': v['passes'], 'failures': v['failures'], 'fields': fields})
-        return res
+        return res + tail
 
     def nontrivial_key(self, case):
         for ks in case['constraints'].values():
